@@ -3,7 +3,8 @@
 Both receivers are the real ones: of_01.Connection on a fake socket (one recv(2048) per read()) with its
 handler table replaced by recorders, and datapaths.switch.OFConnection on a real IOWorker with
 set_message_handler(recorder), fed either through _push_receive_data or (via="recv") through the real
-IOWorker._do_recv reading a non-blocking fake socket once per select wake-up.
+IOWorker._do_recv reading a non-blocking fake socket once per select wake-up.  A recorder can be told to raise
+on its k-th message, and the switch-side worker can have read a prefix before the OFConnection is built.
 
 Oracle (exact, per read): the stream is framed independently by pvf.ref.of10_bytes.split (declared lengths);
 after every single read exactly the messages wholly contained in the bytes received so far have been
@@ -33,9 +34,12 @@ LEVEL_TEXT = ("Exploration by generated-input search over (message sequence x se
 LEVEL_NOTE = ("trusts the byte-level builder pvf/ref/of10_bytes.py (written from openflow.h 1.0.0) to produce well-formed messages; "
               "message *content* equality is judged against POX's own decoder applied to the single message (codec correctness is C01)")
 RULE = ("a case is (side, list of message specs built by the independent byte builder, optional truncated tail, cut positions); "
-        "for the switch side also whether segments are pushed into the IOWorker or read by IOWorker._do_recv from a non-blocking socket; "
+        "for the switch side also whether segments are pushed into the IOWorker or read by IOWorker._do_recv from a non-blocking socket, "
+        "and optionally a prefix the worker has read before the OFConnection is built on it; optionally the indices of messages on "
+        "which the recorder raises after recording (the raising call is that message's delivery); "
         "non-trivial when the stream has >= 2 messages and either >= 1 cut lies strictly inside a message, or a truncated tail is held, "
-        "or a single read makes more than 32 messages complete at once; "
+        "or a single read makes more than 32 messages complete at once, or the handler raises on a message with further complete "
+        "messages behind it in the same read, or a complete message was read before the connection object existed; "
         "distinct by SHA-1 of the canonical JSON of the case")
 ASSUMPTIONS = [
   "messages are well-formed OpenFlow 1.0 messages of the direction the receiver handles (switch->controller types for "
@@ -54,7 +58,11 @@ EXHAUSTIVE_SCOPE = {
            "every 2-cut for streams <= 140 bytes, and all pairs of header-relative positions for the others; dribble with chunk sizes "
            "1,2,3,5,7,8,9,2047,2048,2049,8191,8192,8193,16383,16384,16385; every truncation length of a trailing message (held, then "
            "completed); bursts of 2,31,32,33,34,40,64,65,100,255,256,257,300,1000,1024,1025 small messages x 3 type mixes delivered "
-           "as one segment, in 2 and 3 large segments, in segments of exactly 2048/4096/8192/16384 bytes, and followed by a held tail",
+           "as one segment, in 2 and 3 large segments, in segments of exactly 2048/4096/8192/16384 bytes, and followed by a held tail; "
+           "handler raising on message k for every k of every catalogue stream <= 3000 bytes (k in {0,1,5,30,31,32,38,39} of a "
+           "40-message burst) x {whole stream, cuts at/around the first 12 message boundaries, 7-byte dribble}, on all and on every "
+           "second message; switch side: every prefix length (<= 420-byte streams; header-relative and 1..63 otherwise) read by the "
+           "worker before the OFConnection exists x {rest whole, rest cut after 3 bytes, 1-byte dribble}",
   "thorough": "as quick, every 2-cut for streams <= 420 bytes, every 1-cut of every catalogue stream",
 }
 
